@@ -49,8 +49,11 @@ func (x *ExprEnv) formula(text string) (string, error) {
 	if err != nil {
 		return "", fmt.Errorf("parse %q: %v", text, err)
 	}
+	mark := x.e.mark()
 	v := x.tr(ex)
 	if len(x.errs) > 0 {
+		// nothing a failed translation asserted on the way (inlined callees of ill-typed placeholders) stays
+		x.e.rollback(mark)
 		return "", fmt.Errorf("%s: %s", text, strings.Join(x.errs, "; "))
 	}
 	if x.e.d.sortOf(v.typ) != "Bool" {
@@ -64,11 +67,29 @@ func (x *ExprEnv) term(text string) (tval, error) {
 	if err != nil {
 		return tval{}, fmt.Errorf("parse %q: %v", text, err)
 	}
+	mark := x.e.mark()
 	v := x.tr(ex)
 	if len(x.errs) > 0 {
+		x.e.rollback(mark)
 		return tval{}, fmt.Errorf("%s: %s", text, strings.Join(x.errs, "; "))
 	}
 	return v, nil
+}
+
+type encMark struct{ lines, obs, axioms int }
+
+func (e *Enc) mark() encMark { return encMark{len(e.lines), len(e.obs), len(e.axioms)} }
+
+func (e *Enc) rollback(m encMark) {
+	if len(e.lines) > m.lines {
+		e.lines = e.lines[:m.lines]
+	}
+	if len(e.obs) > m.obs {
+		e.obs = e.obs[:m.obs]
+	}
+	if len(e.axioms) > m.axioms {
+		e.axioms = e.axioms[:m.axioms]
+	}
 }
 
 func (x *ExprEnv) withState(st *State) *ExprEnv {
@@ -368,18 +389,25 @@ func (x *ExprEnv) call(n *ast.CallExpr) tval {
 			k := x.tr(n.Args[0])
 			return tval{t: x.visited(k.t), typ: bt}
 		case "implies":
+			ne0 := len(x.errs)
+			mk0 := e.mark()
 			a := x.tr(n.Args[0])
+			if len(x.errs) > ne0 && strings.HasPrefix(x.errs[ne0], "unknown identifier") && !x.assuming {
+				// the antecedent talks about a variable that does not exist on this path (a return outside
+				// its scope): the clause says nothing here
+				x.errs = x.errs[:ne0]
+				e.rollback(mk0)
+				return tval{t: "true", typ: bt}
+			}
 			ne := len(x.errs)
+			mk := e.mark()
 			b := x.tr(n.Args[1])
 			if len(x.errs) > ne {
+				e.rollback(mk)
 				// a consequent that mentions a variable not yet declared at this program point cannot hold
 				// here: the clause then demands that the antecedent is false at this point
-				onlyUnknown := true
-				for _, er := range x.errs[ne:] {
-					if !strings.HasPrefix(er, "unknown identifier") {
-						onlyUnknown = false
-					}
-				}
+				// (errors after an unknown identifier are its consequences: the placeholder has no fields)
+				onlyUnknown := strings.HasPrefix(x.errs[ne], "unknown identifier")
 				if onlyUnknown {
 					x.errs = x.errs[:ne]
 					if x.assuming {
@@ -415,6 +443,16 @@ func (x *ExprEnv) call(n *ast.CallExpr) tval {
 				return tval{t: fmt.Sprintf("(or (= %s 0) (>= %s %s))", a.t, a.t, x.a0), typ: bt}
 			}
 			return x.errf("freshOrNil of %s", a.typ)
+		case "endsWith":
+			// endsWith(s, t): s is some string followed by t (strings are uninterpreted: this is decided by
+			// matching the concatenation that built s, which is exactly what it is meant to pin down)
+			if len(n.Args) != 2 {
+				return x.errf("endsWith(s, t)")
+			}
+			a, b := x.tr(n.Args[0]), x.tr(n.Args[1])
+			e.d.decl("strcat", "(Str Str) Str")
+			p := e.fresh("q_pre")
+			return tval{t: fmt.Sprintf("(exists ((%s Str)) (! (= %s (strcat %s %s)) :pattern ((strcat %s %s))))", p, a.t, p, b.t, p, b.t), typ: bt}
 		case "haskey":
 			m, k := x.tr(n.Args[0]), x.tr(n.Args[1])
 			u, ok := m.typ.Underlying().(*types.Map)
